@@ -112,4 +112,7 @@ theorem classify_enc6 (c : Nat) (h1 : 0x4000000 ≤ c) (h2 : c ≤ 0x7FFFFFFF) :
   · classify_eval
   · classify_eval; simp; omega
 
+
+theorem encodeWc_zero' : encodeWc 0 = [0] := by decide
+
 end Fcppt.C15
